@@ -161,7 +161,7 @@ fn main() {
         g.odd_nums = i % 4 == 3;
         let sh = *g.r.pick(&[Sh::Arr, Sh::Obj, Sh::Arr, Sh::Obj, Sh::Any]);
         let d = g.r.range(1, 3) as u32;
-        let v = g.value(d, sh, false);
+        let v = if i % 9 == 4 { g.obj_order_array() } else { g.value(d, sh, false) };
         g.odd_nums = false;
         shapes += v.nodes();
         c.all_laws(&mut g, &v, false);
